@@ -73,6 +73,23 @@ def build_tool(pkg):
     return path
 
 
+def build_tool_unoptimised(pkg):
+    """The same tool built the way `cargo build` builds a user's debug build: no optimisation anywhere, stack frames of full size
+    (profile `stackdebug` of tools/Cargo.toml). Used where a verdict depends on how much stack a level of recursion takes."""
+    key = pkg + ":stackdebug"
+    if key in _built:
+        return _built[key]
+    build_tool(pkg)           # (lock file, and the ordinary build first: a tree that does not build is reported once)
+    try:
+        p = run(["cargo", "build", "-q", "-p", pkg, "--profile", "stackdebug", "--target-dir", TARGET], cwd=TOOLS, timeout=1500)
+    except subprocess.TimeoutExpired:
+        raise Inconclusive(f"unoptimised build of {pkg} timed out")
+    if p.returncode != 0:
+        raise Inconclusive(f"unoptimised build of {pkg} failed: " + p.stderr.decode(errors="replace")[-1500:])
+    _built[key] = os.path.join(TARGET, "stackdebug", pkg)
+    return _built[key]
+
+
 def build_zeep_bin():
     """The CLI binary of the tree under test, built into /verif/work (never /repo/target)."""
     if "zeep-bin" in _built:
